@@ -4,6 +4,7 @@ package main
 
 import (
 	"encoding/base64"
+	"fmt"
 	"strings"
 
 	"github.com/clbanning/mxj/v2"
@@ -20,7 +21,8 @@ import (
 // the Lean model: the reference is the document as mxj.NewMapXml reads it before and after (the implementation's
 // own reader), the judge computes the expected tree from the one before.
 // payload: (#doc (step ...) #secret) with step = #key | index
-// observation: ((plain (before T) (after T') (decl b) (leak b)) (b64 ...)), T' = tree | error | unparseable | notstring
+// observation: ((plain (before T) (after T') (decl b) (leak b) (seen true|false|error)) (b64 ...)), T' = tree | error | unparseable | notstring;
+// seen: `<field>.xml().<path> == "[REDACTED]"` evaluated on the returned record
 func init() {
 	families["kfl.redactxml"] = &Family{Gen: genKflRedactXml, Run: runKflRedactXml}
 }
@@ -102,7 +104,12 @@ func runKflRedactXml(p sx.Sx) sx.Sx {
 		_, res, err := kfl.Apply(recb, q)
 		after := sx.A("error")
 		decl, leak := true, false
+		seen := "error"
 		if err == nil {
+			// the read path must see what the redaction wrote: the same path compared with the marker
+			if t, _, rerr := kfl.Apply([]byte(res), field+`.xml().`+path+` == "`+kfl.REDACTED+`"`); rerr == nil {
+				seen = fmt.Sprint(t)
+			}
 			parsed, perr := oj.ParseString(res)
 			after = sx.A("unparseable")
 			if m, ok := parsed.(map[string]interface{}); perr == nil && ok {
@@ -116,7 +123,7 @@ func runKflRedactXml(p sx.Sx) sx.Sx {
 				}
 			}
 		}
-		return sx.L(sx.A(label), sx.L(sx.A("before"), tree(doc)), sx.L(sx.A("after"), after), sx.L(sx.A("decl"), sx.Bool(decl)), sx.L(sx.A("leak"), sx.Bool(leak)))
+		return sx.L(sx.A(label), sx.L(sx.A("before"), tree(doc)), sx.L(sx.A("after"), after), sx.L(sx.A("decl"), sx.Bool(decl)), sx.L(sx.A("leak"), sx.Bool(leak)), sx.L(sx.A("seen"), sx.A(seen)))
 	}
 	plain := one("plain", "x", doc, func(s string) (string, bool) { return s, true })
 	b64 := one("b64", "xb", base64.StdEncoding.EncodeToString([]byte(doc)), func(s string) (string, bool) {
